@@ -408,6 +408,30 @@ def canon_atom(a):
     return "%s(%s,%s)" % (a[0], canon(strip(a[1])), canon(strip(a[2])))
 
 
+def _established_before(f, sy, blk, cond):
+    """the assumption repeats what a run-time branch of the same function, which dominates it, has just established
+    (`if x == INVALID { break }` ... `invariant!(x != INVALID)`): nothing is assumed beyond what was tested"""
+    me = _cmp_of(cond)
+    if me is None:
+        return None
+    mk = (me[0], canon(strip(me[1])), canon(strip(me[2])))
+    if me[0] in ("Eq", "Ne") and mk[2] < mk[1]:
+        mk = (mk[0], mk[2], mk[1])
+    for c in path_conds(f, sy, blk):
+        a = bool_atom(c)
+        if a is None or a[0] == "truth":
+            continue
+        o = _cmp_of(("bin", a[0], a[1], a[2]))
+        if o is None:
+            continue
+        ok = (o[0], canon(strip(o[1])), canon(strip(o[2])))
+        if o[0] in ("Eq", "Ne") and ok[2] < ok[1]:
+            ok = (ok[0], ok[2], ok[1])
+        if ok == mk:
+            return "a dominating run-time branch on the same comparison"
+    return None
+
+
 def invpair(ctx, prog, scope=None, floors=(75, 60)):
     ctx.rule(RI, "under the `unsafe` feature every invariant!(c) becomes an optimiser assumption; each such site is subsumed by a run-time check of the safe build at the same point: a later bounds / slice-range / division check of the same function, dominated by the site, fails exactly when c is false on value-equal operands - so the safe build panics where the unsafe build would be undefined and feature-equivalence reduces to panic-freedom; sites without such a check are in a reasoned table with structural side conditions")
     res = invpair_residue(prog)
@@ -426,7 +450,7 @@ def invpair(ctx, prog, scope=None, floors=(75, 60)):
                 cond = sy.operand(t["args"][0])
                 n += 1
                 key = "%s: invariant!(%s)" % (f.short, re.sub(r"_\d+\b", "", show(cond))[:110])
-                why = pair_with_runtime_check(prog, f, sy, i, cond)
+                why = pair_with_runtime_check(prog, f, sy, i, cond) or _established_before(f, sy, i, cond)
                 if why:
                     paired += 1
                     ctx.ob(RI, key, True, "subsumed by " + why, f.loc(t["sp"]))
